@@ -192,6 +192,78 @@ fn explore(api: &Api, setting_ix: usize, chunk: usize, nchunks: usize, tier: Tie
     }
 }
 
+/// value-conditional states: sessions whose genuine server MAC STARTS or ENDS with a zero byte (1 session in 256 each),
+/// found by running logins on generators 0, 1, 2, ... until one comes up; on them every substitution of the first two
+/// and last two MAC bytes must be refused (a comparison that strips leading zeros / stops at a NUL compares less)
+fn zero_edge_macs(api: &Api, seed: u64, cx: &mut Cx) {
+    let sp = api.spec;
+    let p = setting(0);
+    let mut t = Tape::seeded(seed, "c04/zero-edge");
+    let base = (|| -> Result<_, flow::StepErr> {
+        let setup = api.setup(&mut t).map_err(|e| flow::StepErr { step: "setup", e })?;
+        let reg = flow::register(api, &mut t, &setup, &p.pw, &p.cid, o(&p.idu), o(&p.ids), None)?;
+        Ok((setup, reg))
+    })();
+    let (setup, reg) = match base {
+        Ok(x) => x,
+        Err(e) => {
+            cx.violate_case(&format!("honest-step/{}", e.step), format!("{:?}", e.e), json!({}));
+            return;
+        }
+    };
+    cx.context_done();
+    let mac = sp.field(Kind::CredResp, "server_mac");
+    let mut found: [Option<flow::Login>; 2] = [None, None];
+    for i in 0..4096 {
+        if found.iter().all(|f| f.is_some()) {
+            break;
+        }
+        let mut lt = Tape::seeded(seed, &format!("c04/zero-edge/{}", i));
+        if let Ok(l) = flow::login(api, &mut lt, &setup, Some(&reg.file), &p.pw, &p.cid, o(&p.ctx), o(&p.idu), o(&p.ids), None) {
+            let m = mac.of(&l.ke2);
+            if m[0] == 0 && found[0].is_none() {
+                found[0] = Some(l.clone());
+            }
+            if m[m.len() - 1] == 0 && found[1].is_none() {
+                found[1] = Some(l);
+            }
+        }
+    }
+    for (which, f) in ["server MAC starts with 00", "server MAC ends with 00"].iter().zip(found.iter()) {
+        let l = match f {
+            Some(l) => l,
+            None => {
+                cx.undetermined += 1;
+                cx.outcome("zero-edge-session-not-found");
+                continue;
+            }
+        };
+        for off in [0usize, 1, mac.len - 2, mac.len - 1] {
+            for v in 0..=255u8 {
+                let mut m = l.ke2.clone();
+                if m[mac.start + off] == v {
+                    continue;
+                }
+                m[mac.start + off] = v;
+                cx.begin_case(json!({"session": which, "action": "set MAC byte", "offset": off, "value": v}));
+                if !cx.state(&(which, &m)) {
+                    continue;
+                }
+                cx.edges += 1;
+                cx.path();
+                match api.login_finish(&Blob::n(&l.clogin), &p.pw, &Blob::n(&m), o(&p.ctx), o(&p.idu), o(&p.ids), None) {
+                    Err(E::InvalidLogin) => cx.outcome("rejected-InvalidLoginError"),
+                    Err(_) => cx.outcome("rejected-other-error"),
+                    Ok(_) => {
+                        cx.outcome("ACCEPTED-ALTERED");
+                        cx.violate("ACCEPTED/zero-edge-mac", format!("client login finish succeeds on a response whose server MAC ({}) was altered at offset {}", which, off));
+                    }
+                }
+            }
+        }
+    }
+}
+
 pub fn run(tier: Tier, seed: u64) -> i32 {
     let t0 = Instant::now();
     let nchunks = if tier.thorough() { 16 } else { 2 };
@@ -203,13 +275,15 @@ pub fn run(tier: Tier, seed: u64) -> i32 {
             }
         }
     }
-    let tot = fw::run_items("C04", &items, |(a, _, _)| a.name().to_string(), |(api, s, c), cx| explore(api, *s, *c, nchunks, tier, seed, cx));
+    let mut tot = fw::run_items("C04", &items, |(a, _, _)| a.name().to_string(), |(api, s, c), cx| explore(api, *s, *c, nchunks, tier, seed, cx));
+    let apis = all_apis();
+    tot.merge(fw::run_items("C04", &apis, |a| a.name().to_string(), |api, cx| zero_edge_macs(api, seed, cx)));
     let rep = Report {
         property: "C04",
         tier,
         seed,
         rule: "mutation LTS rooted at the genuine credential response of an honest login (2 settings x 20 suites): every single-byte substitution of the stated set, every 1- and 2-field splice from 8 donor responses, whole-response swaps, reflected element; each mutant is one ClientLogin::finish transition".into(),
-        bounds: json!({"suites": 20, "settings": 2, "depth": 1, "setbyte": if tier.thorough() {"every offset x all 255 other values"} else {"every offset x {^0x01,^0x80}; all 256 values of first/last byte of element fields"}, "mac_pair_substitutions": if tier.thorough() {"all position pairs x {^01,^80,^ff,+1/-1}"} else {"position pairs at distances divisible by 4 x {^01,+1/-1}"}, "donors": 8, "splices": "all single fields and all pairs of fields per donor"}),
+        bounds: json!({"suites": 20, "settings": 2, "depth": 1, "setbyte": if tier.thorough() {"every offset x all 255 other values"} else {"every offset x {^0x01,^0x80}; all 256 values of first/last byte of element fields"}, "mac_pair_substitutions": if tier.thorough() {"all position pairs x {^01,^80,^ff,+1/-1}"} else {"position pairs at distances divisible by 4 x {^01,+1/-1}"}, "zero_edge_macs": "sessions found on generators 0..4095 whose genuine server MAC starts / ends with 00: all substitutions of its first two and last two bytes", "donors": 8, "splices": "all single fields and all pairs of fields per donor"}),
         assumptions: vec!["a mutant that decodes to the genuine object is an alias (C10), not an altered response".into()],
         exhaustive: true,
         crosscheck: json!(null),
